@@ -42,7 +42,7 @@ From ASModel Require Import Base State Orderings_gen Step Run Progress Hist Inv 
 From ASModel Require Import GenDefs Gen1 Gen2 Gen EnvDefs Env4 Env AccDefs Acc1 Acc2 Acc3 Acc4 Acc5 Acc6 Acc7 Acc.
 From ASModel Require Import ProtDefs Prot1 Prot11 Prot16 Prot Typed LinDefs Lin2 Lin Safe1 Safe2 Safe7 Safe8 Safe Main RunOKEx.
 From ASModel Require Import WrpDefs WrpGen WrpEnv WrpMain WrpLin WrpEx WrpC03.
-From ASModel Require Import Stale2 Stale2P Stale2Inv Stale2Wr.
+From ASModel Require Import Stale2 Stale2P Stale2Inv Stale2Wr Stale2WrEx.
 
 Theorem C13_total :
   forall cf inits progs sched te e,
@@ -231,7 +231,21 @@ Theorem C13_wrap_stale2_scope : forall cf inits progs sched,
   RunOKS2 cf inits progs sched -> 4 * N.of_nat (length sched) + 8 < WORD -> RunOKWS2 cf inits progs sched.
 Proof. exact RunOKS2_RunOKWS2. Qed.
 
+(** Non-vacuity with an actual wrap: a checked run within [RunOKWS2] in which the reader's counter is
+    preset to WORD - 4, eight stale scans (every slot is empty, each scan is answered with the paid
+    4096) send its ninth load to the fallback, and THAT stale step wraps the counter to 0; the load
+    returns the current value, nobody faults. *)
+Theorem C13_wrap_stale2_scope_inhabited : RunOKWS2 wsx_cf wsx_inits wsx_progs wsx_sched.
+Proof. exact RunOKWS2_wrap_example. Qed.
+
+Theorem C13_wrap_stale2_wraps :
+  tl_gen (t_loc (thr (wsx_St 104) 0)) = WORD - 4 /\ tl_gen (t_loc (thr (wsx_St 105) 0)) = 0 /\
+  tl_gen (t_loc (thr (wsx_St 104) 0)) + 4 = WORD.
+Proof. exact wsx_wrapped. Qed.
+
 Print Assumptions C13_wrap_no_use_after_free_stale2.
+Print Assumptions C13_wrap_stale2_scope_inhabited.
+Print Assumptions C13_wrap_stale2_wraps.
 Print Assumptions C13_wrap_accounting_stale2.
 Print Assumptions C13_wrap_load_linearizable_stale2.
 Print Assumptions C13_wrap_stale2_scope.
